@@ -13,6 +13,8 @@ import (
 
 func init() {
 	register(&PropertyCheck{ID: "C05", Level: "other", Run: checkC05, Canaries: []Canary{
+		{Name: "map-presized-from-the-property-length", Rule: "R5.2", Where: "(*buffer).getAny#makemap", Edits: []Edit{{"buffer.go", "\tend := b.i + int(propLen)\n", "\tend := b.i + int(propLen)\n\tseen := make(map[Ident]bool, propLen/2)\n\t_ = seen\n"}}},
+		{Name: "pair-decoder-copies-the-rest-of-the-frame", Rule: "R5.2", Where: "(*UserProp).UnmarshalBinary", Edits: []Edit{{"wiretypes.go", "func (v *UserProp) UnmarshalBinary(data []byte) error {\n", "func (v *UserProp) UnmarshalBinary(data []byte) error {\n\town := make([]byte, len(data))\n\tcopy(own, data)\n\tdata = own\n"}}},
 		{Name: "subscribe-loop-ignores-error", Rule: "R5.1", Where: "(*Subscribe).UnmarshalBinary", Edits: []Edit{{"subscribe.go", "\t\tb.get(&f.options)\n\t\tif b.err != nil {\n\t\t\tbreak\n\t\t}\n", "\t\tb.get(&f.options)\n"}}},
 		{Name: "unsubscribe-loop-ignores-error", Rule: "R5.1", Where: "(*Unsubscribe).UnmarshalBinary", Edits: []Edit{{"unsubscribe.go", "\t\tb.get(&f)\n\t\tif b.err != nil {\n\t\t\tbreak\n\t\t}\n", "\t\tb.get(&f)\n"}}},
 		{Name: "property-loop-ignores-error", Rule: "R5.1", Where: "(*buffer).getAny", Edits: []Edit{{"buffer.go", "\t\tif b.err != nil {\n\t\t\treturn\n\t\t}\n\t\tfield, hasField", "\t\tfield, hasField"}}},
@@ -192,6 +194,16 @@ func checkC05(p *Prog, c *Check) {
 						c.OK("R5.2", cons, pos, fmt.Sprintf("constant size %d", l.c))
 						continue
 					}
+					// a wire decoder is called once per item with the open-ended rest of the frame as input: only the
+					// decoder of the "rest of the frame" kind may allocate in proportion to that input
+					if p.isWireDecoder(fn) && len(fn.Params) == 2 {
+						if pt, ok := fn.Params[0].Type().Underlying().(*types.Pointer); ok && p.wireKindOf(pt.Elem()) != "raw" {
+							if k := l.coef["len("+pr.key(fn.Params[1])+")"]; k > 0 {
+								c.Unk("R5.2", cons, pos, "a per-item wire decoder allocates "+l.String()+" bytes — proportional to the whole rest of the frame it is handed, on every item: quadratic over a frame's items")
+								continue
+							}
+						}
+					}
 					done := false
 					for _, prm := range fn.Params {
 						if _, ok := prm.Type().Underlying().(*types.Slice); !ok {
@@ -223,6 +235,28 @@ func checkC05(p *Prog, c *Check) {
 						} else {
 							c.Unk("R5.2", cons+"#cap", pos, "allocation capacity "+cp.String()+" is not shown to be bounded by the bytes present")
 						}
+					}
+				case *ssa.MakeMap:
+					if x.Reserve == nil {
+						continue
+					}
+					nalloc++
+					ia++
+					cons := fmt.Sprintf("%s#makemap%d", qname(fn), ia)
+					l := pr.lin(x.Reserve)
+					done := l.isConst()
+					for _, prm := range fn.Params {
+						if _, ok := prm.Type().Underlying().(*types.Slice); !ok || done {
+							continue
+						}
+						if pr.Prove(b, pr.lenOf(prm).sub(l)) {
+							done = true
+						}
+					}
+					if done {
+						c.OK("R5.2", cons, posOf(p, ins), "map size hint "+l.String()+" bounded by the bytes present")
+					} else {
+						c.Unk("R5.2", cons, posOf(p, ins), "the map is pre-sized with "+l.String()+", which is not shown to be bounded by the bytes present: a length field inside the frame governs the allocation")
 					}
 				case *ssa.Call:
 					bi, ok := x.Call.Value.(*ssa.Builtin)
